@@ -9,7 +9,7 @@ from checks import lach_common as lc
 def run(c):
     ex = lc.run_exhaustive(c, c.pick(["x31_6_full"], ["x31_8_full", "x11_8_full", "x31f_7_full"]), "block-contents")
     c.guard("model_dags_with_blocks", ex["total"]["dags_with_blocks"])
-    res = lc.run_profile(c, "c02", c.pick(10, 150), "block-contents")
+    res = lc.run_profile(c, "c02", c.pick(20, 200), "block-contents")
     st = res["stats"]
     c.guard("blocks", st.get("blocks", 0))
     c.guard("seals", st.get("seals", 0))
